@@ -273,6 +273,15 @@ M = [
   "        res = _make_request(AUTH_SERVER, \"signout\",", "        res = _make_request(AUTH_SERVER, \"sign_out\","),
  ('C19', 'status-code-not-set', AUTH,
   "    exception.status_code = res.status_code\n", "    exception.status_code = None\n"),
+ ('C01', 'framing-mode-survives-reconnect', CONN,
+  "        self.options.compression_enabled = False\n        self.options.compression_threshold = -1\n        self.connected = True",
+  "        self.connected = True"),
+ ('C16', 'handover-successor-does-not-wait-when-interrupted', CONN,
+  "                if self.previous_thread.is_alive():\n                    self.previous_thread.join()",
+  "                while not self.interrupt and self.previous_thread.is_alive():\n                    self.previous_thread.join(0.05)"),
+ ('C18', 'secret-cached-on-connection-until-disconnect', CONN,
+  "            secret = encryption.generate_shared_secret()\n",
+  "            secret = getattr(self.connection, '_sec', None) or encryption.generate_shared_secret()\n            self.connection._sec = secret\n"),
 ]
 
 
